@@ -15,3 +15,4 @@ open Rtsp.Life.C13
 #print axioms shutdown_steps_persist
 #print axioms client_traces_accepted
 #print axioms client_close_terminates
+#print axioms session_close_terminates
